@@ -134,6 +134,16 @@ def post_extint(ctx, args, kwargs, result):
     ctx.ev("stream-counts", ok_shapes, cls="lengths", detail=d())
     if not ok_shapes:
         return
+    # the whitening variant block-diagonalises W H (W = whitening filters), so
+    # its null spaces are accurate relative to ||W H||: seen through the
+    # unwhitened channel the leakage is amplified by the condition of W
+    kapW_all = 1.0
+    if metric == "whitening":
+        for j in range(K):
+            Hx = Hfull[cr[j]:cr[j + 1], Hb.shape[1]:]
+            Rj = self.pe * Hx @ herm(Hx) + (mu.noise_var or 0.0) * np.eye(Nr[j])
+            evj = np.linalg.eigvalsh(Rj)
+            kapW_all = max(kapW_all, math.sqrt(evj[-1] / evj[0]) if evj[0] > 0 else float("inf"))
     for k in range(K):
         Mk, W_k = np.asarray(Ms[k]), np.asarray(Wk[k])
         ctx.ev("stream-counts", Mk.ndim == 2 and W_k.ndim == 2 and
@@ -144,7 +154,7 @@ def post_extint(ctx, args, kwargs, result):
             continue
         ctx.within("extint-user-power", abs(fro(Mk) ** 2 - Pu), 64 * EPS * n * Pu, None,
                    d(user=k, power=fro(Mk) ** 2))
-        tol = 256 * EPS * n * normH * max(fro(Mk), 1e-300)
+        tol = 256 * EPS * n * normH * max(fro(Mk), 1e-300) * kapW_all
         worst = 0.0
         for j in range(K):
             if j != k:
